@@ -101,6 +101,7 @@ type FuncVC struct {
 	lockSnap *State
 	execKeys []string
 	loopDescCount map[string]int
+	litMode bool
 	freshRefs map[string]bool
 }
 
